@@ -36,6 +36,14 @@ fn check(prop: &'static str, tier: &str, runs_override: Option<u64>) -> i32 {
             run::<worlds::g::WorldG>(&mut agg, prop, n(Plan { quick: 3000, thorough: 200_000 }), thorough, &known, cap);
             rule = RULE;
         }
+        "C14" => {
+            run::<worlds::s::WorldS>(&mut agg, prop, n(Plan { quick: 3000, thorough: 200_000 }), thorough, &known, cap);
+            rule = RULE;
+        }
+        "C17" => {
+            run::<worlds::o::WorldO>(&mut agg, prop, n(Plan { quick: 3000, thorough: 200_000 }), thorough, &known, cap);
+            rule = RULE;
+        }
         "C12" => {
             run::<worlds::t::WorldT>(&mut agg, prop, n(Plan { quick: 3000, thorough: 200_000 }), thorough, &known, cap);
             rule = RULE;
@@ -82,6 +90,8 @@ fn replay(path: &str) -> i32 {
     let code = match rf.world.as_str() {
         "G" => engine::replay::<worlds::g::WorldG>(&rf, &known),
         "T" => engine::replay::<worlds::t::WorldT>(&rf, &known),
+        "S" => engine::replay::<worlds::s::WorldS>(&rf, &known),
+        "O" => engine::replay::<worlds::o::WorldO>(&rf, &known),
         w => {
             eprintln!("harness error: unknown world {}", w);
             2
